@@ -662,6 +662,12 @@ class C15(Check):
         if not bad:
             return None
         kid = None
+        # … or sat there before this operation (a rejected @namespace insert re-parents it: the state after is clean)
+        o = pre.rsplit(' O=', 1)[1]
+        if o != '_':
+            own, ia, ib = o.split(':')
+            if (ia != '-' and own != 'a') or (ib != '-' and own != 'b'):
+                stray.append(('pre', o))
         if stray:
             # what the finding is about: prefixes / URIs of the rule do not fit the sheet that lists it, and a
             # rejected call re-parents it; anything else (the mapping itself, undocumented exceptions) is not excused
